@@ -22,6 +22,8 @@ DOC = {
  "C09.R5": "multi_call: index and receiver of each spawned wait come from the same enumerate item; the result vector is written only by resize_with and indexing with the index returned by that wait",
  "C09.R6": "call_and_forward: the forwarding send is a single call inside the closure given to CallResult::map (Success only), not in a cycle",
  "C09.R8": "internal_call: the send result is checked (`sent?`) before the reply is awaited (a refused message keeps its reply port alive, so waiting would hang); build+send happen once before the wait block",
+ "C09.R9": "multi_call: each send result is tested and on the refused edge nothing is awaited or spawned before returning (the refused message keeps that callee's reply port alive)",
+ "C09.R10": "exported macros, analysed where expanded (witness/derive::rpc_macros, built against /repo's macros): every call_t!/forward! arm passes its timeout as Some(duration) to the call; call!/untimed forward! pass None",
  "C09.R7": "= C08.R5 / C07.R6: exiting actors flush queued requests (closing their reply ports); refused sends hand the message (with its port) back",
 }
 
@@ -302,6 +304,63 @@ def r8(run, db):
         run.check(len(snd) == 2 and cs and all(g.dominates(c.site, cs[0][1]) for c in snd) and not any(g.in_cycle(c.site) for c in snd), "send-before-wait", "the message is built and sent exactly once, before the wait block exists", "internal_call send/build shape changed", g.where())
 
 
+def r9(run, db):
+    """multi_call: a refused send must end the call at once.  The Err carries the undelivered message and with it the reply
+    port of that callee, so any wait performed while it is alive can only end by deadline (or never)."""
+    f = db.fn("ractor::rpc::multi_call::{closure#0}")
+    if f is None:
+        run.fail("anchor:multi_call body", "multi_call::{closure#0} not found")
+        return
+    run.saw(len(f.blocks), f)
+    sends = [c for c in f.calls() if c.matches(r"ActorRef<TMessage>>::cast$|ActorRef<TMessage>>::send_message$|ActorCell::send_message$")]
+    run.anchor("multi_call sends", len(sends), 1, f.where())
+    waits = set(a.poll.site for a in awaits(f)) | set(c.site for c in f.calls() if c.matches(r"JoinSet::<T>::spawn\w*$|::spawn$|JoinSet<T>::spawn$"))
+    run.anchor("multi_call waits/spawns", len(waits), 3, f.where())
+    for c in sends:
+        edges = [b["break_edge"] for b in try_branches_on(f, c) if b["break_edge"]]
+        e2 = nested_variant_edge(f, c, ["Err"])
+        if e2:
+            edges.append(e2)
+        run.check(bool(edges), "multi|send-result-tested", "the result of each send is tested", "a send result in multi_call is never tested: a dead callee goes unnoticed and its reply is awaited", c.where())
+        for e in edges:
+            reach = f.reach(Site(e[1], 0))
+            bad = sorted(waits & reach)
+            run.check(not bad, "multi|refused-send-returns-at-once", "on the refused-send edge no reply is awaited and no waiter is spawned before the function returns",
+                      "after a refused send multi_call goes on to wait for replies (sites %s) while the refused message, and the reply port inside it, is still alive: that callee's receiver can never observe a closed port" % [str(x) for x in bad[:4]], c.where())
+
+
+def r10(run, db):
+    """the exported macros (macro_rules!, so only analysable where expanded: witness/derive::rpc_macros)"""
+    n = 0
+    for f in db.fns.values():
+        m = re.search(r"rpc_macros::(call_t_arm\d|call_arm\d|forward_timed|forward_untimed)::\{closure#0\}$", f.id)
+        if not m:
+            continue
+        nm = m.group(1)
+        cs = [c for c in f.calls() if c.matches(r"ActorRef<TMessage>>::call$|ActorRef<TMessage>>::call_and_forward$")]
+        run.check(len(cs) == 1, nm + "|one-call", "%s expands to one call" % nm, "%s expands to %d calls" % (nm, len(cs)), f.where())
+        if not cs:
+            continue
+        n += 1
+        c = cs[0]
+        to = c.args[-1]
+        roots = f.origins(to)
+        if nm.startswith("call_t") or nm == "forward_timed":
+            good = len(roots) == 1 and roots[0]["k"] == "agg" and roots[0]["stmt"]["rv"].get("variant") == "Some"
+            src = []
+            if good:
+                inner = f.origins(roots[0]["stmt"]["rv"]["ops"][0], through=lambda c: 0 if c.matches(r"Duration::from_millis$") else None)
+                src = inner
+                good = bool(inner) and all(r["k"] == "upvar" and r["field"] == (1 if nm.startswith("call_t") else 2) for r in inner)
+            run.check(good, nm + "|timeout-forwarded", "the macro's timeout argument reaches the call as Some(duration)",
+                      "the %s arm of the macro does not pass its timeout to the call (%s): the call is unbounded" % (nm, [(r["k"], r.get("field")) for r in (src or roots)]), c.where())
+        else:
+            good = len(roots) == 1 and roots[0]["k"] == "agg" and roots[0]["stmt"]["rv"].get("variant") == "None"
+            run.check(good, nm + "|no-timeout", "the untimed arm passes None", None, c.where())
+        # the builder closure puts the reply port last and forwards the user's arguments
+    run.anchor("macro witnesses", n, 7)
+
+
 def r7(run, db):
     c08.r5(run, db)
     from . import c07
@@ -310,7 +369,8 @@ def r7(run, db):
 
 Q = ["dflt", "rc"]
 TH = ["dflt", "rc", "atr", "astd"]
-RULES = [{"id": "C09.R%d" % i, "fn": f, "quick": Q, "thorough": TH} for i, f in enumerate([r1, r2, r3, r4, r5, r6, r7, r8], 1)]
+RULES = [{"id": "C09.R%d" % i, "fn": f, "quick": Q, "thorough": TH} for i, f in enumerate([r1, r2, r3, r4, r5, r6, r7, r8, r9], 1)]
+RULES.append({"id": "C09.R10", "fn": r10, "quick": ["gen"], "thorough": ["gen"]})
 from .etype import witness_rule
 RULES.append({"id": "C09.W", "fn": witness_rule(['W1ReplyOnce', 'W2ReplyNoClone']), "quick": [], "thorough": [], "no_db": True})
 DOC["C09.W"] = 'E-TYPE witnesses W1 (second send on a reply port is E0382) and W2 (clone of a reply port is E0599), each with a compiling twin'
